@@ -905,7 +905,7 @@ def nontrivial(check, ex):
 
 
 TIERS = {
-    'quick': {'C02': 240000, 'C03': 240000, 'C08': 80000, 'wall': 900, 'det': 400},
+    'quick': {'C02': 360000, 'C03': 400000, 'C08': 120000, 'wall': 1200, 'det': 400},
     'thorough': {'C02': 6000000, 'C03': 6000000, 'C08': 2000000, 'wall': 7200, 'det': 4000},
 }
 
